@@ -1,4 +1,4 @@
-//@unit IC — insert_child: where the fragment-start marker of an element with an id is put (src/lib.rs:1408-1483)
+//@unit IC — insert_child: where the fragment-start marker of an element with an id is put (src/lib.rs insert_child, first_cell_with_content)
 // R10: ComputedStyle and the Cell<Option<SizeEstimate>> cache are opaque; derives on the recursive render-tree types are dropped (R15).
 use vstd::prelude::*;
 macro_rules! html_trace { ($($t:tt)*) => {} }
@@ -127,8 +127,64 @@ spec fn placed(oc: Seq<RenderNode>, new_child: RenderNode, position: ChildPositi
 }
 // a cell with the marker pushed into its content
 spec fn cell_placed(oc: RenderTableCell, rc: RenderTableCell, new_child: RenderNode, position: ChildPosition) -> bool {
-    rc.content@ == placed(oc.content@, new_child, position) && rc.colspan == oc.colspan && rc.col_width == oc.col_width
+    rc.content@ =~= placed(oc.content@, new_child, position) && rc.colspan == oc.colspan && rc.col_width == oc.col_width
         && rc.style == oc.style && rc.size_estimate == oc.size_estimate
+}
+
+// ---- table rows, bodies and tables: which cell the marker of the whole element goes into ----
+// what `RenderTableCell::is_shallow_empty` decides ("definitely empty": every child is a whitespace-only text, an empty container, a
+// line break or another marker); its body is an iterator chain over `RenderNode::is_shallow_empty` and is not verified here
+uninterp spec fn cell_shallow_empty(c: RenderTableCell) -> bool;
+spec fn no_cells(rows: Seq<RenderTableRow>) -> bool { forall|a: int| 0 <= a < rows.len() ==> (#[trigger] rows[a]).cells@.len() == 0 }
+spec fn cell_before(a: int, b: int, i: int, j: int) -> bool { a < i || (a == i && b < j) }
+// C14 "after all text that precedes the element and no later than the element's first visible character", for an element whose
+// text lives in cells: every cell before the chosen one (row by row) is definitely empty, and the chosen cell is the first one that is
+// not — or, when every cell is definitely empty, the very first cell.
+spec fn marker_cell_ok(rows: Seq<RenderTableRow>, i: int, j: int) -> bool {
+    0 <= i < rows.len() && 0 <= j < rows[i].cells@.len()
+    && (forall|a: int, b: int| 0 <= a < rows.len() && 0 <= b < rows[a].cells@.len() && cell_before(a, b, i, j) ==> cell_shallow_empty(#[trigger] rows[a].cells@[b]))
+    && (cell_shallow_empty(rows[i].cells@[j]) ==> (j == 0 && (forall|a: int| 0 <= a < i ==> (#[trigger] rows[a]).cells@.len() == 0)
+        && (forall|a: int, b: int| 0 <= a < rows.len() && 0 <= b < rows[a].cells@.len() ==> cell_shallow_empty(#[trigger] rows[a].cells@[b]))))
+}
+// `rrows` is `orows` with the marker put into cell (i, j) and nothing else touched
+spec fn rows_put(orows: Seq<RenderTableRow>, rrows: Seq<RenderTableRow>, i: int, j: int, new_child: RenderNode, position: ChildPosition) -> bool {
+    rrows.len() == orows.len()
+    && (forall|k: int| 0 <= k < orows.len() && k != i ==> #[trigger] rrows[k] == orows[k])
+    && rrows[i].cells@.len() == orows[i].cells@.len() && rrows[i].col_sizes == orows[i].col_sizes && rrows[i].style == orows[i].style
+    && (forall|k: int| 0 <= k < orows[i].cells@.len() && k != j ==> #[trigger] rrows[i].cells@[k] == orows[i].cells@[k])
+    && cell_placed(orows[i].cells@[j], rrows[i].cells@[j], new_child, position)
+}
+spec fn marker_in_rows(orows: Seq<RenderTableRow>, rrows: Seq<RenderTableRow>, new_child: RenderNode, position: ChildPosition) -> bool {
+    if no_cells(orows) { rrows == orows }
+    else { exists|i: int, j: int| #[trigger] marker_cell_ok(orows, i, j) && rows_put(orows, rrows, i, j, new_child, position) }
+}
+// the cell is determined by the rows: two answers satisfying marker_cell_ok are the same cell
+proof fn lemma_marker_cell_unique(rows: Seq<RenderTableRow>, i: int, j: int, i2: int, j2: int)
+    requires marker_cell_ok(rows, i, j), marker_cell_ok(rows, i2, j2),
+    ensures i == i2 && j == j2,
+{
+    if cell_before(i, j, i2, j2) {
+        assert(cell_shallow_empty(rows[i].cells@[j]));
+        assert(rows[i].cells@.len() == 0 || (i == i2));
+    } else if cell_before(i2, j2, i, j) {
+        assert(cell_shallow_empty(rows[i2].cells@[j2]));
+        assert(rows[i2].cells@.len() == 0 || (i == i2));
+    }
+}
+// std: a one-element slice of the referenced value
+pub assume_specification<T> [std::slice::from_ref] (x: &T) -> (r: &[T]) ensures r@ == seq![*x];
+
+impl RenderTableCell {
+//@item src/lib.rs :: impl RenderTableCell :: fn is_shallow_empty
+//@sub /-> bool/ ==> -> (r: bool)
+//@drop-body
+    #[verifier::external_body] //@w
+    fn is_shallow_empty(&self) -> (r: bool)
+        ensures r == cell_shallow_empty(*self), //@w
+    {
+        self.content.iter().all(RenderNode::is_shallow_empty)
+    }
+//@end
 }
 
 impl RenderNode {
@@ -154,6 +210,46 @@ enum ChildPosition {
 }
 //@end
 
+//@item src/lib.rs :: fn first_cell_with_content
+//@sub /-> Option<\(usize, usize\)>/ ==> -> (r: Option<(usize, usize)>)
+//@sub /let mut first_cell = None;/ ==> let mut first_cell: Option<(usize, usize)> = None;
+//@sub /for \(i, row\) in rows\.iter\(\)\.enumerate\(\)/ ==> for i in 0..rows.len()
+//@sub /for \(j, cell\) in row\.cells\.iter\(\)\.enumerate\(\)/ ==> for j in 0..row.cells.len()
+//@auto C14
+fn first_cell_with_content(rows: &[RenderTableRow]) -> (r: Option<(usize, usize)>)
+    ensures //@w
+        r is None <==> no_cells(rows@), //@w @C14 #marker_dropped_only_without_cells
+        r matches Some(p) ==> marker_cell_ok(rows@, p.0 as int, p.1 as int), //@w @C14 #marker_cell_is_first_with_content
+{
+    let mut first_cell: Option<(usize, usize)> = None;
+    for i in 0..rows.len()
+        invariant //@w[ @C14 #cells_before_are_empty
+            forall|a: int, b: int| 0 <= a < i && 0 <= b < rows@[a].cells@.len() ==> cell_shallow_empty(#[trigger] rows@[a].cells@[b]),
+            first_cell is None <==> (forall|a: int| 0 <= a < i ==> (#[trigger] rows@[a]).cells@.len() == 0),
+            first_cell matches Some(p) ==> (p.0 < i && p.1 == 0 && rows@[p.0 as int].cells@.len() > 0 && (forall|a: int| 0 <= a < p.0 ==> (#[trigger] rows@[a]).cells@.len() == 0)), //@w]
+    {
+        let row = &rows[i]; //@w
+        for j in 0..row.cells.len()
+            invariant //@w[ @C14 #cells_before_are_empty
+                i < rows@.len() && *row == rows@[i as int],
+                forall|a: int, b: int| 0 <= a < i && 0 <= b < rows@[a].cells@.len() ==> cell_shallow_empty(#[trigger] rows@[a].cells@[b]),
+                forall|b: int| 0 <= b < j ==> cell_shallow_empty(#[trigger] rows@[i as int].cells@[b]),
+                first_cell is None <==> ((forall|a: int| 0 <= a < i ==> (#[trigger] rows@[a]).cells@.len() == 0) && j == 0),
+                first_cell matches Some(p) ==> (p.0 <= i && (p.0 == i ==> j > 0) && p.1 == 0 && rows@[p.0 as int].cells@.len() > 0 && (forall|a: int| 0 <= a < p.0 ==> (#[trigger] rows@[a]).cells@.len() == 0)), //@w]
+        {
+            let cell = &row.cells[j]; //@w
+            if !cell.is_shallow_empty() {
+                return Some((i, j));
+            }
+            if first_cell.is_none() {
+                first_cell = Some((i, j));
+            }
+        }
+    }
+    first_cell
+}
+//@end
+
 //@item src/lib.rs :: fn insert_child
 //@rule R15
 //@sub /\) -> RenderNode/ ==> ) -> (r: RenderNode)
@@ -166,10 +262,11 @@ fn insert_child(
     ensures //@w
         // containers, blocks and table cells: the marker becomes the first (Start) / last (End) child, everything else is kept in order (C14)
         kids(orig.info) matches Some(oc) ==> (same_shell(orig.info, r.info) && kids(r.info) == Some(placed(oc, new_child, position)) && r.style == orig.style), //@w @C14 @C03 #marker_first_child
-        // table rows, bodies and tables: the marker goes to the first cell of the first row; with no cell there is nothing to attach it to
-        orig.info matches RenderNodeInfo::TableRow(orow, v) ==> (r.info matches RenderNodeInfo::TableRow(rrow, rv) && rv == v && r.style == orig.style && rrow.cells@.len() == orow.cells@.len() && rrow.col_sizes == orow.col_sizes && rrow.style == orow.style && (forall|k: int| 1 <= k < orow.cells@.len() ==> #[trigger] rrow.cells@[k] == orow.cells@[k]) && (orow.cells@.len() > 0 ==> (rrow.cells@[0].content@ == placed(orow.cells@[0].content@, new_child, position) && rrow.cells@[0].colspan == orow.cells@[0].colspan && rrow.cells@[0].col_width == orow.cells@[0].col_width && rrow.cells@[0].style == orow.cells@[0].style && rrow.cells@[0].size_estimate == orow.cells@[0].size_estimate))), //@w @C14 @C03 #marker_first_cell_of_row
-        orig.info matches RenderNodeInfo::TableBody(orows) ==> (r.info matches RenderNodeInfo::TableBody(rrows) && r.style == orig.style && rrows@.len() == orows@.len() && (forall|k: int| 1 <= k < orows@.len() ==> #[trigger] rrows@[k] == orows@[k]) && (orows@.len() > 0 ==> (rrows@[0].cells@.len() == orows@[0].cells@.len() && rrows@[0].col_sizes == orows@[0].col_sizes && rrows@[0].style == orows@[0].style && (forall|k: int| 1 <= k < orows@[0].cells@.len() ==> #[trigger] rrows@[0].cells@[k] == orows@[0].cells@[k]) && (orows@[0].cells@.len() > 0 ==> (rrows@[0].cells@[0].content@ == placed(orows@[0].cells@[0].content@, new_child, position) && rrows@[0].cells@[0].colspan == orows@[0].cells@[0].colspan && rrows@[0].cells@[0].col_width == orows@[0].cells@[0].col_width && rrows@[0].cells@[0].style == orows@[0].cells@[0].style && rrows@[0].cells@[0].size_estimate == orows@[0].cells@[0].size_estimate))))), //@w @C14 @C03 #marker_first_cell_of_body
-        orig.info matches RenderNodeInfo::Table(ot) ==> (r.info matches RenderNodeInfo::Table(rt) && r.style == orig.style && rt.num_columns == ot.num_columns && rt.rows@.len() == ot.rows@.len() && (forall|k: int| 1 <= k < ot.rows@.len() ==> #[trigger] rt.rows@[k] == ot.rows@[k]) && (ot.rows@.len() > 0 ==> (rt.rows@[0].cells@.len() == ot.rows@[0].cells@.len() && rt.rows@[0].col_sizes == ot.rows@[0].col_sizes && rt.rows@[0].style == ot.rows@[0].style && (forall|k: int| 1 <= k < ot.rows@[0].cells@.len() ==> #[trigger] rt.rows@[0].cells@[k] == ot.rows@[0].cells@[k]) && (ot.rows@[0].cells@.len() > 0 ==> (rt.rows@[0].cells@[0].content@ == placed(ot.rows@[0].cells@[0].content@, new_child, position) && rt.rows@[0].cells@[0].colspan == ot.rows@[0].cells@[0].colspan && rt.rows@[0].cells@[0].col_width == ot.rows@[0].cells@[0].col_width && rt.rows@[0].cells@[0].style == ot.rows@[0].cells@[0].style && rt.rows@[0].cells@[0].size_estimate == ot.rows@[0].cells@[0].size_estimate))))), //@w @C14 @C03 #marker_first_cell_of_table
+        // table rows, bodies and tables: the marker goes into the first cell that is not definitely empty (else the first cell), nothing
+        // else changes; with no cell at all there is nothing to attach it to and the node is returned as it was
+        orig.info matches RenderNodeInfo::TableRow(orow, v) ==> (r.info matches RenderNodeInfo::TableRow(rrow, rv) && rv == v && r.style == orig.style && marker_in_rows(seq![orow], seq![rrow], new_child, position)), //@w @C14 @C03 #marker_first_cell_of_row
+        orig.info matches RenderNodeInfo::TableBody(orows) ==> (r.info matches RenderNodeInfo::TableBody(rrows) && r.style == orig.style && marker_in_rows(orows@, rrows@, new_child, position)), //@w @C14 @C03 #marker_first_cell_of_body
+        orig.info matches RenderNodeInfo::Table(ot) ==> (r.info matches RenderNodeInfo::Table(rt) && r.style == orig.style && rt.num_columns == ot.num_columns && rt.size_estimate == ot.size_estimate && marker_in_rows(ot.rows@, rt.rows@, new_child, position)), //@w @C14 @C03 #marker_first_cell_of_table
         // anything else (text, inline elements, lists, headings …): a new container holding the marker and the node, marker first for Start
         kids(orig.info).is_none() && !(orig.info is TableRow) && !(orig.info is TableBody) && !(orig.info is Table) ==> //@w[ @C14 @C03 #marker_wraps_node
             (r.info matches RenderNodeInfo::Container(rc) && rc@ == (if position == ChildPosition::Start { seq![new_child, orig] } else { seq![orig, new_child] })), //@w]
@@ -266,36 +363,50 @@ fn insert_child(
         TableRow(ref mut rrow, _) => {
             // If the row is empty, then there isn't really anything
             // to attach the fragment start to.
-            if let Some(cell) = rrow.cells.first_mut() {
+            let ghost orow = *rrow; //@w
+            if let Some((_, j)) = first_cell_with_content(std::slice::from_ref(rrow)) {
+                let cell = &mut rrow.cells[j];
                 match position {
                     ChildPosition::Start => cell.content.insert(0, new_child),
                     ChildPosition::End => cell.content.push(new_child),
                 }
+                proof { //@w[ @C14 #marker_first_cell_of_row
+                    assert(marker_cell_ok(seq![orow], 0, j as int));
+                    assert(rows_put(seq![orow], seq![*rrow], 0, j as int, new_child, position));
+                } //@w]
             }
         }
 
         TableBody(ref mut rows) => {
-            // If the row is empty, then there isn't really anything
+            // If there are no cells, then there isn't really anything
             // to attach the fragment start to.
-            if let Some(rrow) = rows.first_mut() {
-                if let Some(cell) = rrow.cells.first_mut() {
-                    match position {
-                        ChildPosition::Start => cell.content.insert(0, new_child),
-                        ChildPosition::End => cell.content.push(new_child),
-                    }
+            let ghost orows = rows@; //@w
+            if let Some((i, j)) = first_cell_with_content(rows) {
+                let cell = &mut rows[i].cells[j];
+                match position {
+                    ChildPosition::Start => cell.content.insert(0, new_child),
+                    ChildPosition::End => cell.content.push(new_child),
                 }
+                proof { //@w[ @C14 #marker_first_cell_of_body
+                    assert(marker_cell_ok(orows, i as int, j as int));
+                    assert(rows_put(orows, rows@, i as int, j as int, new_child, position));
+                } //@w]
             }
         }
         Table(RenderTable { ref mut rows, .. }) => {
-            // If the row is empty, then there isn't really anything
+            // If there are no cells, then there isn't really anything
             // to attach the fragment start to.
-            if let Some(rrow) = rows.first_mut() {
-                if let Some(cell) = rrow.cells.first_mut() {
-                    match position {
-                        ChildPosition::Start => cell.content.insert(0, new_child),
-                        ChildPosition::End => cell.content.push(new_child),
-                    }
+            let ghost orows = rows@; //@w
+            if let Some((i, j)) = first_cell_with_content(rows) {
+                let cell = &mut rows[i].cells[j];
+                match position {
+                    ChildPosition::Start => cell.content.insert(0, new_child),
+                    ChildPosition::End => cell.content.push(new_child),
                 }
+                proof { //@w[ @C14 #marker_first_cell_of_table
+                    assert(marker_cell_ok(orows, i as int, j as int));
+                    assert(rows_put(orows, rows@, i as int, j as int, new_child, position));
+                } //@w]
             }
         }
 
